@@ -1,0 +1,77 @@
+//go:build verif
+
+// Contracts for the verification machinery in /verif (comment-only; never compiled into a binary).
+// Property C18 (anomaly-gating half): the detector counts consecutive abnormal / normal rounds and
+// changes state only through setState, which starts a new generation (zeroed counters).
+
+package anomaly
+
+//@ spec func zeroCounter(d *BasicDetector) bool = d.counter.TotalDetects == 0 && d.counter.TotalNormalities == 0 && d.counter.TotalAbnormalities == 0 && d.counter.ConsecutiveNormalities == 0 && d.counter.ConsecutiveAbnormalities == 0
+
+// Data-structure invariant established by NewBasicDetector and kept by every method:
+// in the ok state there is no expiration.
+//@ spec func detOK(d *BasicDetector) bool = d != nil && (d.state == StateOK || d.state == StateAnomaly) && (d.state == StateOK ==> d.expiration.IsZero())
+
+//@ func (*Counter).onMark [C18]
+//@   ensures c.TotalDetects == old(c.TotalDetects) + 1
+//@   modifies c.TotalDetects
+
+//@ func (*Counter).onNormality [C18]
+//@   ensures #consec: c.ConsecutiveNormalities == old(c.ConsecutiveNormalities) + 1 && c.ConsecutiveAbnormalities == 0
+//@   ensures #total: c.TotalNormalities == old(c.TotalNormalities) + 1
+//@   modifies c.TotalNormalities, c.ConsecutiveNormalities, c.ConsecutiveAbnormalities
+
+//@ func (*Counter).onAbnormalities [C18]
+//@   ensures #consec: c.ConsecutiveAbnormalities == old(c.ConsecutiveAbnormalities) + 1 && c.ConsecutiveNormalities == 0
+//@   ensures #total: c.TotalAbnormalities == old(c.TotalAbnormalities) + 1
+//@   modifies c.TotalAbnormalities, c.ConsecutiveNormalities, c.ConsecutiveAbnormalities
+
+//@ func (*Counter).clear [C18]
+//@   ensures c.TotalDetects == 0 && c.TotalNormalities == 0 && c.TotalAbnormalities == 0 && c.ConsecutiveNormalities == 0 && c.ConsecutiveAbnormalities == 0
+//@   modifies obj(c)
+
+//@ func (*BasicDetector).toNewGeneration [C18]
+//@   requires d != nil
+//@   ensures #zero: zeroCounter(d)
+//@   ensures #exp: d.expiration == (d.state == StateAnomaly ? now + d.timeout : 0)
+//@   modifies d.counter, d.expiration
+
+// State change without a listener (LowNodeLoad never installs OnStateChange).
+//@ func (*BasicDetector).setState [C18]
+//@   requires d != nil
+//@   ensures #same: old(d.state) == state ==> d.state == old(d.state) && d.counter == old(d.counter) && d.expiration == old(d.expiration) && d.onStateChange == old(d.onStateChange)
+//@   ensures #state: old(d.onStateChange) == nil ==> d.state == state
+//@   ensures #newgen: old(d.onStateChange) == nil && old(d.state) != state ==> zeroCounter(d) && d.expiration == (state == StateAnomaly ? now + d.timeout : 0)
+
+//@ func (*BasicDetector).Reset [C18]
+//@   requires detOK(d)
+//@   ensures #ok: old(d.onStateChange) == nil ==> d.state == StateOK && d.expiration.IsZero()
+//@   ensures #cleared: old(d.onStateChange) == nil && old(d.state) == StateAnomaly ==> zeroCounter(d)
+//@   ensures #noop: old(d.state) == StateOK ==> d.counter == old(d.counter)
+
+// The anomaly -> ok decision on the not-yet-expired path goes through d.normalConditionFn, a
+// function-typed field: the engine havocs that call, so only the other paths are specified.
+//@ func (*BasicDetector).currentState [C18]
+//@   requires d != nil
+//@   ensures #res: result == d.state
+//@   ensures #ok: old(d.state) == StateOK && old(d.expiration.IsZero()) ==> d.state == StateOK && d.counter == old(d.counter) && d.expiration == old(d.expiration) && d.onStateChange == old(d.onStateChange)
+//@   ensures #okexpired: old(d.state) == StateOK && !old(d.expiration.IsZero()) && old(d.expiration) < now ==> d.state == StateOK && zeroCounter(d) && d.expiration.IsZero()
+//@   ensures #expired: old(d.state) == StateAnomaly && old(d.expiration) < now && old(d.onStateChange) == nil ==> d.state == StateOK && zeroCounter(d) && d.expiration.IsZero()
+
+//@ func (*BasicDetector).onNormality [C18]
+//@   requires d != nil
+//@   ensures #ok: state == StateOK ==> d.counter.ConsecutiveNormalities == old(d.counter.ConsecutiveNormalities) + 1 && d.counter.ConsecutiveAbnormalities == 0 && d.counter.TotalNormalities == old(d.counter.TotalNormalities) + 1 && d.counter.TotalDetects == old(d.counter.TotalDetects) && d.state == old(d.state) && d.expiration == old(d.expiration)
+
+//@ func (*BasicDetector).onAbnormalities [C18]
+//@   requires d != nil
+//@   ensures #anomaly: state == StateAnomaly && old(d.state) == StateAnomaly ==> d.counter.ConsecutiveAbnormalities == old(d.counter.ConsecutiveAbnormalities) + 1 && d.counter.ConsecutiveNormalities == 0 && d.counter.TotalAbnormalities == old(d.counter.TotalAbnormalities) + 1 && d.state == StateAnomaly && d.expiration == old(d.expiration)
+
+//@ func (*BasicDetector).Mark [C18]
+//@   requires detOK(d)
+//@   ensures #noerr: result1 == nil
+//@   ensures #normal: old(d.state) == StateOK && normality ==> result0 == StateOK && d.state == StateOK && d.counter.ConsecutiveNormalities == old(d.counter.ConsecutiveNormalities) + 1 && d.counter.ConsecutiveAbnormalities == 0 && d.counter.TotalDetects == old(d.counter.TotalDetects) + 1 && d.expiration.IsZero()
+
+//@ func (*BasicDetector).State [C18]
+//@   requires detOK(d)
+//@   ensures #res: result == d.state
+//@   ensures #ok: old(d.state) == StateOK ==> result == StateOK && d.counter == old(d.counter)
